@@ -31,6 +31,8 @@
 // commit 23681a3 (monitor breaks ties by instance id) the expected report is
 // `tied N distinct`; `tied N same k/N` is finding F8 (fixed) having returned and is
 // answered by the Lean driver with FAIL C10.tie-inconsistent.
+// mb-cb-joinwrite (l2_membership_join.go): a new instance registers between another
+// member's index read and its CAS-guarded write-back.
 package main
 
 import (
@@ -794,8 +796,11 @@ func runC10Cb(c *Ctx) {
 		ties = []int{2, 2, 3, 3, 4, 5, 6}
 	}
 	race := os.Getenv("VERIF_C10_RACE") != ""
+	// a join between another member's index read and its CAS write-back (l2_membership_join.go)
+	joins := cbjCases(c)
 	if replayFile != "" {
 		scripts, conflicts, ties, race = cbReplayOps(replayFile)
+		joins = cbjReplayOps(replayFile)
 	}
 	type result struct {
 		obs string
@@ -837,6 +842,7 @@ func runC10Cb(c *Ctx) {
 			tieRes[i] = cbRunTie(fmt.Sprintf("t%d", i), ties[i])
 		}(i)
 	}
+	joinRes := cbjRunAll(joins, sem, &wg)
 	wg.Wait()
 	for i, s := range scripts {
 		c.E.Line(fmt.Sprintf("mb-cb %s x%d", s, conflicts[i]), res[i].obs)
@@ -863,6 +869,7 @@ func runC10Cb(c *Ctx) {
 		}
 		c.E.EndCase(true, tag)
 	}
+	cbjEmit(c, joins, joinRes)
 	if race {
 		// opt-in replay of the registration race (VERIF_C10_RACE=1 or a replay file naming it)
 		c.E.Line("mb-cb-race", cbRunRace())
